@@ -254,6 +254,9 @@ func forType(t reflect.Type, seen map[reflect.Type]bool, ignore bool, schemas ma
 		// If skipPath is non-nil, it is path to an anonymous field whose
 		// schema has been replaced by a known schema.
 		var skipPath []int
+		// fieldDepth records, per JSON name, the embedding depth of the field that currently
+		// provides the property: like encoding/json, a shallower field hides a deeper one.
+		fieldDepth := make(map[string]int)
 		for _, field := range reflect.VisibleFields(t) {
 			if s.Properties == nil {
 				s.Properties = make(map[string]*Schema)
@@ -344,6 +347,15 @@ func forType(t reflect.Type, seen map[reflect.Type]bool, ignore bool, schemas ma
 				}
 				fs.Description = tag
 			}
+			if d, ok := fieldDepth[info.name]; ok && d != len(field.Index) {
+				if d < len(field.Index) {
+					// Hidden by a shallower field with the same JSON name.
+					continue
+				}
+				// This field hides the deeper one seen earlier.
+				s.Required = slices.DeleteFunc(s.Required, func(n string) bool { return n == info.name })
+			}
+			fieldDepth[info.name] = len(field.Index)
 			s.Properties[info.name] = fs
 
 			s.PropertyOrder = append(s.PropertyOrder, info.name)
